@@ -91,6 +91,9 @@ func (g GenCfg) GenRules(t *rapid.T, est bool) []RuleOp {
 	bar := map[string]bool{}
 	for i := 0; i < n; i++ {
 		r := g.GenRule(t, verbs)
+		if (r.Verb == "create" || r.Verb == "update") && rapid.IntRange(0, 2).Draw(t, "permute") == 0 {
+			r.Perm = rapid.Uint32Range(1, 1<<32-1).Draw(t, "perm")
+		}
 		if r.Kind == "BAR" {
 			// a session message carries at most one Create/Update/Remove BAR IE
 			if bar[r.Verb] {
